@@ -4,6 +4,8 @@ usage: d_tables.py <out.ndjson> <mode>
 mode  all      registry.import_all(), then per logic: table(op), table(op, reverse=True), table(op) again
       lazy:N   logics are looked up one by one (imported on demand) in order N (0 sorted, 1 reversed, >=2 seeded
                shuffle) and their tables are dumped immediately: a table must not depend on what was asked before
+In mode all the table objects of the first phase are KEPT and read again (through inputs/outputs and through
+.mapping) after every other table of the logic has been asked for: a table is a value, later calls must not change it.
 Every call is recorded as its own phase; rows are (inputs, output) pairs, so the order of a reversed table does not matter.
 """
 import json
@@ -21,24 +23,34 @@ NAMES = ['B3E', 'CFOL', 'CPL', 'D', 'FDE', 'G3', 'GO', 'K', 'K3', 'K3W', 'K3WQ',
          'S5L3', 'S5LP', 'S5RM3', 'T', 'TB3E', 'TFDE', 'TG3', 'TK3', 'TK3W', 'TK3WQ', 'TL3', 'TLP', 'TRM3']
 
 
-def tables(lg, **kw):
+def rows_of(tt, via='outputs'):
+    pairs = zip(tt.inputs, tt.outputs) if via == 'outputs' else tt.mapping.items()
+    return [{'ins': [v.name for v in ins], 'out': outv.name} for ins, outv in pairs]
+
+
+def tables(lg, keep=None, **kw):
     out = []
     for op in TF:
         tt = lg.Model.truth_table(Operator[op], **kw)
-        rows = [{'ins': [v.name for v in ins], 'out': outv.name} for ins, outv in zip(tt.inputs, tt.outputs)]
-        out.append({'op': op, 'rows': rows})
+        if keep is not None:
+            keep.append((op, tt))
+        out.append({'op': op, 'rows': rows_of(tt)})
     return out
 
 
-def record(lg, phase, **kw):
+def record(lg, phase, keep=None, kept=None, **kw):
     M = lg.Meta
+    if kept is not None:
+        tabs = [{'op': op, 'rows': rows_of(tt, kw['via'])} for op, tt in kept]
+    else:
+        tabs = tables(lg, keep, **kw)
     return {'id': f'{M.name}/{phase}', 'logic': M.name, 'phase': phase,
             'values': [v.name for v in M.values],
             'designated': sorted(v.name for v in M.designated_values),
             'unassigned': M.unassigned_value.name,
             'modal': int(bool(M.modal)), 'quantified': int(bool(M.quantified)),
             'native': [o.name for o in M.native_operators],
-            'tables': tables(lg, **kw)}
+            'tables': tabs}
 
 
 def main(out, mode='all'):
@@ -48,8 +60,12 @@ def main(out, mode='all'):
             found = sorted(lg.Meta.name for lg in registry.values())
             for name in found:
                 lg = registry(name)
-                for phase, kw in (('first', {}), ('reversed', {'reverse': True}), ('again', {})):
+                keep = []
+                f.write(json.dumps(record(lg, 'first', keep=keep)) + '\n')
+                for phase, kw in (('reversed', {'reverse': True}), ('again', {})):
                     f.write(json.dumps(record(lg, phase, **kw)) + '\n')
+                f.write(json.dumps(record(lg, 'kept', kept=keep, via='outputs')) + '\n')
+                f.write(json.dumps(record(lg, 'kept-mapping', kept=keep, via='mapping')) + '\n')
             f.write(json.dumps({'id': 'REGISTERED', 'logic': '', 'phase': 'names', 'names': found}) + '\n')
         else:
             n = int(mode.split(':')[1])
